@@ -212,6 +212,13 @@ func (w *w3) differential(op simrt.Op) {
 			// are acceptable, anything else is not
 			faultsSeen = true
 			w.sim.Probe("c17.etcd-failure")
+			if o.kind == "CreateTopic" || o.kind == "CreatePartitions" || o.kind == "DeleteTopic" {
+				// a failed snapshot update leaves the broker's cached copy and etcd apart until the
+				// watcher or the next update reconciles them: neither "applied" nor "not applied"
+				// describes the store from here on, so the comparison ends for this run
+				w.sim.Probe("c17.ambiguous-stop")
+				return
+			}
 			var es string
 			w.run(n, "observe", func() { es = observeM(ctx, etcdStore, topics, groups, true) })
 			if strings.Contains(es, "other:") {
